@@ -244,4 +244,4 @@ def run(tier, seed, rng):
 
 
 def replay(f):
-    return True, dict(note='re-run the check: python3 check.py C12', failure=f)
+    return pktprops.generic_replay(f)
